@@ -141,9 +141,9 @@ def recip_table(rep, prog, rule):
              "of the two neighbours of c * 255 / a for every colour c")
     st = prec = None
     for k, v in prog.statics.items():
-        if k.endswith("alpha::common::RECIP_ALPHA"):
+        if k.endswith("::RECIP_ALPHA"):
             st = v
-        if k.endswith("alpha::common::PRECISION"):
+        if k.endswith("::PRECISION") and "alpha" in k:
             prec = v.get("value")
     f = prog.fn_by_name("alpha::common::div_and_clip")
     rep.touch(f)
@@ -185,13 +185,14 @@ def recip_table16(rep, prog, rule):
              "too small for 16-bit colours)")
     st = prec = rc = None
     for k, v in prog.statics.items():
-        if k.endswith("alpha::common::RECIP_ALPHA16"):
+        if k.endswith("::RECIP_ALPHA16"):
             st = v
-        if k.endswith("alpha::common::PRECISION16"):
+        if k.endswith("::PRECISION16"):
             prec = v.get("value")
-        if k.endswith("alpha::common::ROUND_CORRECTION16"):
+        if k.endswith("::ROUND_CORRECTION16"):
             rc = v.get("value")
-    fs = [f for f in prog.fns.values() if f.name == "alpha::common::div_and_clip16"]
+    fs = [f for f in prog.fns.values() if f.name == "alpha::common::div_and_clip16"] or \
+        prog._by_tail("div_and_clip16")
     if len(fs) != 1:
         rep.unk(rule, "table16|anchor", "", "div_and_clip16 not found")
         return
